@@ -9,6 +9,7 @@ EXTENDS VtfLayoutOps, Json
 CONSTANTS Sizes,      \* side lengths (powers of two)
           FrameCounts, Layers,   \* Layers: "d1", "d2", "d4" (depth) or "cube"
           Minors, Fmts, Lows,
+          Thumbs,     \* sizes of the low-res image: "t16" 16x16 (what a new texture has), "t4" 4x4, "t2x1" 2x1
           ResKinds,   \* kinds of user resources that may be added
           MaxRes,
           Access,     \* explore pixel access on the built texture
@@ -18,15 +19,16 @@ CONSTANTS Sizes,      \* side lengths (powers of two)
 
 VARIABLES v, phase, file, out, hs, act
 vars == <<v, phase, file, out, hs>>
-NoHist == [lv |-> <<>>, n |-> 0, file2 |-> <<>>, out2 |-> <<>>]
+NoHist == [lv |-> <<>>, n |-> 0, file2 |-> <<>>, out2 |-> <<>>, th |-> "file", th2 |-> ""]
 
 NoSheet == [has |-> FALSE, ver |-> 0, seqs |-> <<>>]
 None == [w |-> 0]
 \* the constructor: every level down to the first side of 1, and a header that says so
+ThumbDim == [t16 |-> <<16, 16>>, t4 |-> <<4, 4>>, t2x1 |-> <<2, 1>>]
 DepthOf == [d1 |-> 1, d2 |-> 2, d4 |-> 4, cube |-> 1]
-New(w, h, n, lay, minor, f, low, fill) ==
+New(w, h, n, lay, minor, f, low, fill, tn) ==
     [w |-> w, h |-> h, frames |-> n, depth |-> DepthOf[lay], cube |-> lay = "cube", fill |-> fill,
-     minor |-> minor, fmt |-> f, low |-> low, lw |-> 16, lh |-> 16,
+     minor |-> minor, fmt |-> f, low |-> low, lw |-> ThumbDim[tn][1], lh |-> ThumbDim[tn][2],
      mip |-> MipLevels(w, h), res |-> <<>>, sheet |-> NoSheet]
 ResOf(kind, k) ==
     CASE kind = "inline" -> [id |-> IF k = 1 THEN "435243" ELSE "4c4f44", inline |-> TRUE, flags |-> 0, val |-> 305419896 - k, len |-> 0]
@@ -36,12 +38,13 @@ ResOf(kind, k) ==
 
 Init == v = None /\ phase = "new" /\ file = None /\ out = None /\ hs = NoHist /\ act = [op |-> "init"]
 
-Create(w, h, n, lay, minor, f, low, fill) ==
+Create(w, h, n, lay, minor, f, low, fill, tn) ==
     /\ phase = "new" /\ phase' = "built"
-    /\ v' = New(w, h, n, lay, minor, f, low, fill)
+    /\ (low = "NONE" => tn = "t16")          \* without a thumbnail its size does not matter
+    /\ v' = New(w, h, n, lay, minor, f, low, fill, tn)
     /\ UNCHANGED <<file, out>>
     /\ act' = [op |-> "create", w |-> w, h |-> h, frames |-> n, lay |-> lay, minor |-> minor, fmt |-> f, low |-> low,
-               fill |-> fill]
+               fill |-> fill, lw |-> ThumbDim[tn][1], lh |-> ThumbDim[tn][2]]
 AddResource(kind) ==
     /\ phase = "built" /\ Len(v.res) < MaxRes /\ ~v.sheet.has
     /\ v' = [v EXCEPT !.res = Append(@, ResOf(kind, Len(v.res) + 1))]
@@ -92,26 +95,31 @@ LoadFrames(sel) == /\ Reading /\ More /\ CanLoad(hs.lv, sel)
                    /\ hs' = [hs EXCEPT !.lv = HLoad(hs.lv, sel), !.n = @ + 1]
                    /\ act' = [op |-> "load", sel |-> sel]
 LookAt(m) == /\ Reading /\ More /\ m < Len(hs.lv) /\ hs.lv[m + 1].st # "cleared"
-             /\ hs' = [hs EXCEPT !.lv = HAccess(hs.lv, m), !.n = @ + 1]
+             /\ hs' = [hs EXCEPT !.lv = HAccess(hs.lv, m, v.cube), !.n = @ + 1]
              /\ act' = [op |-> "look", m |-> m]
 Poke(m) == /\ Reading /\ More /\ m < Len(hs.lv) /\ hs.lv[m + 1].st # "cleared"
-           /\ hs' = [hs EXCEPT !.lv = HPoke(hs.lv, m), !.n = @ + 1]
+           /\ hs' = [hs EXCEPT !.lv = HPoke(hs.lv, m, v.cube), !.n = @ + 1]
            /\ act' = [op |-> "poke", m |-> m]
 Compute == /\ Reading /\ More
-           /\ hs' = [hs EXCEPT !.lv = HCompute(hs.lv), !.n = @ + 1]
+           /\ hs' = [hs EXCEPT !.lv = HCompute(hs.lv), !.n = @ + 1, !.th = TRegen(hs.th, v, HCompute(hs.lv))]
            /\ act' = [op |-> "compute"]
+\* VTF.load(): every frame and the thumbnail are read into memory
+LoadAll == /\ Reading /\ More /\ CanLoad(hs.lv, "all")
+           /\ hs' = [hs EXCEPT !.lv = HLoad(hs.lv, "all"), !.n = @ + 1, !.th = IF @ = "file" THEN "mem" ELSE @]
+           /\ act' = [op |-> "loadall"]
 Clear(after) == /\ Reading /\ More /\ after < Len(hs.lv)
-                /\ hs' = [hs EXCEPT !.lv = HClear(hs.lv, after), !.n = @ + 1]
+                /\ hs' = [hs EXCEPT !.lv = HClear(hs.lv, after), !.n = @ + 1, !.th = "erased"]
                 /\ act' = [op |-> "clear", after |-> after]
 Resave == /\ Reading /\ phase' = "resaved"
-          /\ hs' = [hs EXCEPT !.file2 = [j \in 1..Len(hs.lv) |-> Term(hs.lv, j - 1)]]
+          /\ hs' = [hs EXCEPT !.file2 = [j \in 1..Len(hs.lv) |-> Term(hs.lv, j - 1)],
+                               !.th2 = IF v.low = "NONE" THEN "none" ELSE TFinal(TRegen(hs.th, v, HCompute(hs.lv)))]
           /\ act' = [op |-> "resave"]
 Reread == /\ phase = "resaved" /\ phase' = "reread"
           /\ hs' = [hs EXCEPT !.out2 = hs.file2]
           /\ act' = [op |-> "reread"]
 
 Next == \/ \E w \in Sizes, h \in Sizes, n \in FrameCounts, lay \in Layers, minor \in Minors, f \in Fmts, low \in Lows,
-              fill \in Fills : Create(w, h, n, lay, minor, f, low, fill) /\ UNCHANGED hs
+              fill \in Fills, tn \in Thumbs : Create(w, h, n, lay, minor, f, low, fill, tn) /\ UNCHANGED hs
         \/ ((\E kind \in ResKinds : AddResource(kind)) /\ UNCHANGED hs)
         \/ ((\E ver \in {0, 1} : AddSheet(ver)) /\ UNCHANGED hs)
         \/ (phase = "built" /\ Access /\ \E x \in Coords(v.w), y \in Coords(v.h) : GetPixel(x, y) \/ SetPixel(x, y))
@@ -121,6 +129,7 @@ Next == \/ \E w \in Sizes, h \in Sizes, n \in FrameCounts, lay \in Layers, minor
         \/ ((\E m \in 0..3 : LookAt(m)) /\ UNCHANGED <<v, phase, file, out>>)
         \/ ((\E m \in 0..3 : Poke(m)) /\ UNCHANGED <<v, phase, file, out>>)
         \/ (Compute /\ UNCHANGED <<v, phase, file, out>>)
+        \/ (LoadAll /\ UNCHANGED <<v, phase, file, out>>)
         \/ ((\E a \in 0..1 : Clear(a)) /\ UNCHANGED <<v, phase, file, out>>)
         \/ (Resave /\ UNCHANGED <<v, file, out>>)
         \/ (Reread /\ UNCHANGED <<v, file, out>>)
@@ -171,6 +180,12 @@ Kept == phase = "reread" =>
                 CASE hs.lv[m + 1].st = "file" -> hs.out2[m + 1] = [base |-> m, avgs |-> 0, ed |-> hs.lv[m + 1].ed]
                   [] hs.lv[m + 1].st = "gen" -> hs.out2[m + 1] = hs.lv[m + 1].t
                   [] OTHER -> hs.out2[m + 1] = [base |-> hs.out2[m].base, avgs |-> hs.out2[m].avgs + 1, ed |-> hs.out2[m].ed]
+\* the thumbnail: while it is as read, the stored image is written again; without a level of twice
+\* its size nothing regenerates it - it stays the stored image, or the blank one if it was erased
+ThumbKept == (phase = "reread" /\ v.low # "NONE") =>
+          /\ hs.th = "file" => hs.th2 = "stored"
+          /\ ~HasMatch(v) => hs.th2 = (IF hs.th = "erased" THEN "blank" ELSE "stored")
+          /\ hs.th2 = "avg" => HasMatch(v)
 LazyUnobservable == phase \in {"resaved", "reread"} =>
           hs.file2 = [j \in 1..Len(hs.lv) |-> Term([q \in 1..Len(hs.lv) |-> [hs.lv[q] EXCEPT !.loaded = FALSE]], j - 1)]
 Untouched == (phase = "reread" /\ \A j \in 1..Len(hs.lv) : hs.lv[j].st = "file" /\ ~hs.lv[j].ed) =>
@@ -179,6 +194,6 @@ Untouched == (phase = "reread" /\ \A j \in 1..Len(hs.lv) : hs.lv[j].st = "file" 
 View == vars
 \* the history family prints Read steps too (its paths go through them)
 Emit == (act'.op = "read" /\ ~History) \/
-        PrintT(ToJson([tag |-> "EDGE", s |-> [v |-> v, h |-> hs.lv, n |-> hs.n, ph |-> phase], a |-> act',
-                       t |-> [v |-> v', h |-> hs'.lv, n |-> hs'.n, ph |-> phase']]))
+        PrintT(ToJson([tag |-> "EDGE", s |-> [v |-> v, h |-> hs.lv, n |-> hs.n, ph |-> phase, th |-> hs.th], a |-> act',
+                       t |-> [v |-> v', h |-> hs'.lv, n |-> hs'.n, ph |-> phase', th |-> hs'.th]]))
 =============================================================================
